@@ -80,7 +80,7 @@ type FuncContract struct {
 	OnRecv   map[string][]*EffectSpec
 	OnSend   map[string][]*EffectSpec
 	OnCall   map[string][]*EffectSpec // callee short name -> ghost updates applied after a direct call
-	Assume   []*Clause // assumed at entry without being checked at call sites (type invariants)
+	Assume   []*Clause                // assumed at entry without being checked at call sites (type invariants)
 }
 
 type CallsiteContract struct {
@@ -103,14 +103,14 @@ type LemmaVar struct {
 }
 
 type Lemma struct {
-	Name    string
-	Props   []string
-	Vars    []LemmaVar
-	Steps   []*LemmaStep
-	Inline  []string
-	Pkg     string
-	Depth   int
-	File    string
+	Name   string
+	Props  []string
+	Vars   []LemmaVar
+	Steps  []*LemmaStep
+	Inline []string
+	Pkg    string
+	Depth  int
+	File   string
 }
 
 type LemmaStep struct {
@@ -167,19 +167,19 @@ type UFun struct {
 }
 
 type ContractDB struct {
-	Funcs     map[string]*FuncContract
-	FuncList  []*FuncContract
-	Writers   []*WritersSpec
+	Funcs       map[string]*FuncContract
+	FuncList    []*FuncContract
+	Writers     []*WritersSpec
 	FieldWrites []*FieldWriteContract
-	Callsites []*CallsiteContract
-	Lemmas    []*Lemma
-	Monitors  []*Monitor
-	Ghosts    map[string]*GhostVar
-	UFuns     map[string]*UFun
-	Axioms    []*Clause
-	AxiomPkg  []string
-	Files     []string
-	Lines     int
+	Callsites   []*CallsiteContract
+	Lemmas      []*Lemma
+	Monitors    []*Monitor
+	Ghosts      map[string]*GhostVar
+	UFuns       map[string]*UFun
+	Axioms      []*Clause
+	AxiomPkg    []string
+	Files       []string
+	Lines       int
 }
 
 var hdrRE = regexp.MustCompile(`^((?:\(\*?[\w./~\-\[\], ]+\)\.)?[\w./~\-$#:]+)\s*(?:\(([^)]*)\))?\s*(?:\(([^)]*)\)|([\w]+))?\s*$`)
